@@ -331,6 +331,7 @@ class OptimizeStub:
             x = eng.fresh('root_x')
         rec = {'kind': 'root', 'fun': fun, 'x0': x0, 'kw': kw, 'x': x, 'success': ok}
         self.calls.append(rec)
+        r = None
         if ok:
             r = fun(x)
             r = r.item() if hasattr(r, 'item') and getattr(r, 'ndim', 1) == 0 else r
@@ -339,7 +340,8 @@ class OptimizeStub:
                     eng.assume(sx.eq(v, 0))
             else:
                 eng.assume(sx.eq(r, 0))
-        return _OptResult(x, ok)
+        # (the result object carries the residual at x, as scipy's does; code that checks it finds what the contract assumed)
+        return _OptResult(x, ok, fun=r)
 
     def minimize(self, fun, x0, **kw):
         eng = sx.cur()
